@@ -1,18 +1,537 @@
-//! C07 — not built yet.
+//! C07 — recursive resolution finds the authoritative answer in any
+//! (consistent) delegation tree.  E-NET: every generated universe x question
+//! history x order in which candidate nameservers are tried.
+
 use crate::common::*;
-use serde_json::Value;
+use crate::net::*;
+use crate::ugen::*;
+use crate::util::*;
+use dns_resolver::util::types::{ProtocolMode, ResolvedRecord};
+use dns_types::protocol::types::*;
+use dns_types::zones::types::Zones;
+use serde_json::{json, Value};
+use std::collections::{BTreeMap, BTreeSet};
+use std::sync::Arc;
+use std::time::Duration;
 
-pub fn run(_ctx: &Ctx) -> i32 {
-    eprintln!("C07: check not built");
-    2
+pub fn universes(tier: Tier) -> Vec<GenParams> {
+    let mut out = Vec::new();
+    let styles = [NsStyle::InZoneGlue, NsStyle::InParent, NsStyle::Sibling];
+    let max_depth = tier.pick(3, 5);
+    for depth in 1..=max_depth {
+        // all style assignments for depth <= 2 (quick) / <= 3 (thorough); above
+        // that homogeneous and alternating patterns
+        let full = depth <= tier.pick(2, 3);
+        let mut assignments: Vec<Vec<NsStyle>> = Vec::new();
+        if full {
+            let n = 3usize.pow(depth as u32);
+            for i in 0..n {
+                let mut v = Vec::new();
+                let mut k = i;
+                for _ in 0..depth {
+                    v.push(styles[k % 3]);
+                    k /= 3;
+                }
+                assignments.push(v);
+            }
+        } else {
+            for s in styles {
+                assignments.push(vec![s; depth]);
+            }
+            assignments.push((0..depth).map(|i| styles[i % 3]).collect());
+            assignments.push((0..depth).map(|i| styles[(i + 1) % 3]).collect());
+        }
+        for a in assignments {
+            let ns_opts: Vec<usize> = match tier {
+                Tier::Quick => {
+                    if depth <= 2 {
+                        vec![1, 2]
+                    } else {
+                        vec![1]
+                    }
+                }
+                Tier::Thorough => {
+                    if depth <= 2 {
+                        vec![1, 2, 3]
+                    } else if depth == 3 {
+                        vec![1, 2]
+                    } else {
+                        vec![1]
+                    }
+                }
+            };
+            for ns in ns_opts {
+                for (send_additional, chase) in [(true, false), (false, true)] {
+                    let mut p = GenParams::simple(depth, NsStyle::InZoneGlue, ns);
+                    p.styles = a.clone();
+                    p.send_additional = send_additional;
+                    p.chase_in_reply = chase;
+                    out.push(p);
+                }
+            }
+        }
+    }
+    out
 }
 
-pub fn replay(_ctx: &Ctx, _v: &Value) -> i32 {
-    eprintln!("C07: check not built");
-    2
+pub fn base_spec(u: Arc<Universe>, steps: Vec<Step>) -> RunSpec {
+    let mut zones = Zones::new();
+    zones.insert(u.hints_zone());
+    RunSpec {
+        universe: u,
+        zones,
+        cache_size: 512,
+        steps,
+        mode: Mode::Recursive,
+        protocol_mode: ProtocolMode::OnlyV4,
+        port: 53,
+        faults: vec![Fault::Honest],
+        fault_window: 0,
+        explore_orders: true,
+    }
 }
 
-/// Entry point for `vcheck worker C07 <args...>` (child-process mode).
-pub fn worker(_args: &[String]) -> i32 {
-    2
+fn key(r: &ResourceRecord) -> (DomainName, RecordTypeWithData) {
+    (r.name.clone(), r.rtype_with_data.clone())
+}
+
+/// Compare one answer with the truth; returns (clause, message) on mismatch.
+pub fn judge_answer(truth: &Truth, outcome: &Outcome) -> Option<(&'static str, String)> {
+    let (rrs, soa) = match outcome {
+        Outcome::Ok(ResolvedRecord::NonAuthoritative { rrs, soa_rr }) => (rrs.clone(), soa_rr.clone()),
+        Outcome::Ok(other) => {
+            return Some((
+                "answer-kind",
+                format!("expected a non-authoritative answer, got {}", show_outcome(&Outcome::Ok(other.clone()))),
+            ))
+        }
+        Outcome::Err(e) => return Some(("resolution-failed", format!("resolution failed: {e}"))),
+        Outcome::Panic(m) => return Some(("panic", format!("panicked: {m}"))),
+    };
+    let (chain, fin, want_soa): (&Vec<ResourceRecord>, Vec<ResourceRecord>, Option<&ResourceRecord>) =
+        match truth {
+            Truth::Records(c, f) => (c, f.clone(), None),
+            Truth::NoData(c, s) => (c, Vec::new(), Some(s)),
+            Truth::NxDomain(c, s) => (c, Vec::new(), Some(s)),
+            Truth::Undefined(_) => return None,
+        };
+    if rrs.len() < chain.len() {
+        return Some((
+            "chain",
+            format!("answer {} is shorter than the alias chain {}", show_rrs(&rrs), show_rrs(chain)),
+        ));
+    }
+    for (i, c) in chain.iter().enumerate() {
+        if key(&rrs[i]) != key(c) {
+            return Some((
+                "chain",
+                format!("answer {} does not start with the alias chain {}", show_rrs(&rrs), show_rrs(chain)),
+            ));
+        }
+        if rrs[i].ttl > c.ttl {
+            return Some(("ttl", format!("{} has a larger TTL than the authoritative {}", show_rr(&rrs[i]), show_rr(c))));
+        }
+    }
+    let mut got: Vec<_> = rrs[chain.len()..].iter().map(key).collect();
+    let mut want: Vec<_> = fin.iter().map(key).collect();
+    got.sort();
+    want.sort();
+    if got != want {
+        return Some((
+            "final-records",
+            format!(
+                "records after the chain are {} but the authoritative servers hold {}",
+                show_rrs(&rrs[chain.len()..]),
+                show_rrs(&fin)
+            ),
+        ));
+    }
+    for r in &rrs[chain.len()..] {
+        if let Some(w) = fin.iter().find(|w| key(w) == key(r)) {
+            if r.ttl > w.ttl {
+                return Some(("ttl", format!("{} has a larger TTL than the authoritative {}", show_rr(r), show_rr(w))));
+            }
+        }
+    }
+    if let Some(ws) = want_soa {
+        match &soa {
+            Some(s) if key(s) == key(ws) => {}
+            other => {
+                return Some((
+                    "negative-soa",
+                    format!(
+                        "empty answer must carry the SOA {} of the denying zone, got {:?}",
+                        show_rr(ws),
+                        other.as_ref().map(show_rr)
+                    ),
+                ))
+            }
+        }
+    }
+    None
+}
+
+/// Log oracle: known addresses only; for one question within one step the
+/// zones asked get strictly deeper.
+pub fn judge_log(u: &Universe, res: &RunResult) -> Option<(&'static str, String)> {
+    let known = u.all_addresses();
+    for e in &res.log {
+        if !known.contains(&e.addr.ip()) {
+            return Some(("unknown-server", format!("exchange with {} which is no server of the universe", e.addr)));
+        }
+    }
+    let mut last: BTreeMap<(usize, DomainName, u16), usize> = BTreeMap::new();
+    for e in &res.log {
+        if e.proto != dns_resolver::verif::transport::Proto::Udp {
+            continue;
+        }
+        if let Some(q) = &e.question {
+            let zone_depth = u
+                .serving
+                .get(&e.addr.ip())
+                .and_then(|zs| zs.iter().map(|z| u.zones[*z].apex.labels.len()).max())
+                .unwrap_or(0);
+            let k = (e.step, q.name.clone(), u16::from(q.qtype));
+            if let Some(prev) = last.get(&k) {
+                if zone_depth <= *prev {
+                    return Some((
+                        "referral-not-closer",
+                        format!(
+                            "{} {} was asked of a zone at depth {} after one at depth {}: {}",
+                            show_name(&q.name),
+                            q.qtype,
+                            zone_depth,
+                            prev,
+                            show_log(&res.log)
+                        ),
+                    ));
+                }
+            }
+            last.insert(k, zone_depth);
+        }
+    }
+    None
+}
+
+fn spec_to_replay(p: &GenParams, steps: &[Step], choices: &[usize]) -> Value {
+    json!({
+        "kind": "net-history",
+        "universe": {
+            "depth": p.depth,
+            "styles": p.styles.iter().map(|s| format!("{s:?}")).collect::<Vec<_>>(),
+            "ns_count": p.ns_count,
+            "send_additional": p.send_additional,
+            "chase_in_reply": p.chase_in_reply,
+            "families": p.families.iter().map(|f| format!("{f:?}")).collect::<Vec<_>>(),
+        },
+        "steps": steps.iter().map(step_to_json).collect::<Vec<_>>(),
+        "choices": choices,
+    })
+}
+
+pub fn step_to_json(s: &Step) -> Value {
+    match s {
+        Step::Ask(q) => json!({"ask": {"name": q.name.to_dotted_string(), "qtype": u16::from(q.qtype)}}),
+        Step::Advance(d) => json!({"advance_ms": d.as_millis() as u64}),
+        Step::UpstreamOff => json!("upstream_off"),
+        Step::Seed(rrs) => json!({"seed": rrs.iter().map(|r| json!({"name": r.name.to_dotted_string(), "ttl": r.ttl, "data": hex(&crate::refwire::encode_rdata_with_type(&r.rtype_with_data))})).collect::<Vec<_>>()}),
+    }
+}
+
+pub fn step_from_json(v: &Value) -> Option<Step> {
+    if v == "upstream_off" {
+        return Some(Step::UpstreamOff);
+    }
+    if let Some(a) = v.get("ask") {
+        return Some(Step::Ask(question(
+            &dn(a["name"].as_str()?),
+            QueryType::from(a["qtype"].as_u64()? as u16),
+        )));
+    }
+    if let Some(ms) = v.get("advance_ms") {
+        return Some(Step::Advance(Duration::from_millis(ms.as_u64()?)));
+    }
+    if let Some(seed) = v.get("seed") {
+        let mut rrs = Vec::new();
+        for r in seed.as_array()? {
+            rrs.push(rr(
+                &dn(r["name"].as_str()?),
+                crate::refwire::decode_rdata_with_type(&unhex(r["data"].as_str()?))?,
+                r["ttl"].as_u64()? as u32,
+            ));
+        }
+        return Some(Step::Seed(rrs));
+    }
+    None
+}
+
+pub fn params_from_json(v: &Value) -> GenParams {
+    let style = |s: &str| match s {
+        "InParent" => NsStyle::InParent,
+        "Sibling" => NsStyle::Sibling,
+        _ => NsStyle::InZoneGlue,
+    };
+    let fam = |s: &str| match s {
+        "V6" => Family::V6,
+        "Dual" => Family::Dual,
+        _ => Family::V4,
+    };
+    GenParams {
+        depth: v["depth"].as_u64().unwrap_or(1) as usize,
+        styles: v["styles"].as_array().map(|a| a.iter().map(|s| style(s.as_str().unwrap_or(""))).collect()).unwrap_or_default(),
+        ns_count: v["ns_count"].as_array().map(|a| a.iter().map(|n| n.as_u64().unwrap_or(1) as usize).collect()).unwrap_or_default(),
+        send_additional: v["send_additional"].as_bool().unwrap_or(true),
+        chase_in_reply: v["chase_in_reply"].as_bool().unwrap_or(false),
+        families: v["families"].as_array().map(|a| a.iter().map(|s| fam(s.as_str().unwrap_or(""))).collect()).unwrap_or_default(),
+    }
+}
+
+use crate::procpar::{self, JsonAcc};
+
+pub fn check_history(acc: &mut JsonAcc, p: &GenParams, u: &Arc<Universe>, steps: Vec<Step>, max_exec: u64) {
+    let spec = base_spec(u.clone(), steps.clone());
+    acc.count("histories", 1);
+    let truths: Vec<Truth> = steps
+        .iter()
+        .filter_map(|s| match s {
+            Step::Ask(q) => Some(u.truth(q)),
+            _ => None,
+        })
+        .collect();
+    let mut stats = ExploreStats::default();
+    if acc.trace {
+        let (p2, steps2) = (p.clone(), steps.clone());
+        stats.pre = Some(Box::new(move |prefix: &[usize]| {
+            println!("EXEC {}", spec_to_replay(&p2, &steps2, prefix));
+            use std::io::Write;
+            let _ = std::io::stdout().flush();
+        }));
+    }
+    let mut visit = |res: &RunResult, choices: &[usize]| {
+        if let Some(d) = &res.divergence {
+            acc.violate("machinery-divergence", d.clone(), spec_to_replay(p, &steps, choices), None);
+            return;
+        }
+        for (i, ask) in res.asks.iter().enumerate() {
+            let class = match &truths[i] {
+                Truth::Records(c, _) if c.is_empty() => "records",
+                Truth::Records(_, _) => "alias+records",
+                Truth::NoData(c, _) if c.is_empty() => "nodata",
+                Truth::NoData(_, _) => "alias+nodata",
+                Truth::NxDomain(c, _) if c.is_empty() => "nxdomain",
+                Truth::NxDomain(_, _) => "alias+nxdomain",
+                Truth::Undefined(_) => "undefined",
+            };
+            acc.hist(class, 1);
+            if let Some((clause, msg)) = judge_answer(&truths[i], &ask.outcome) {
+                acc.violate(
+                    clause,
+                    format!(
+                        "universe [{}] question #{} {} {}: {} :: log {}",
+                        p.describe(),
+                        i,
+                        show_name(&ask.question.name),
+                        ask.question.qtype,
+                        msg,
+                        show_log(&res.log)
+                    ),
+                    spec_to_replay(p, &steps, choices),
+                    None,
+                );
+            }
+        }
+        if let Some((clause, msg)) = judge_log(u, res) {
+            acc.violate(
+                clause,
+                format!("universe [{}]: {}", p.describe(), msg),
+                spec_to_replay(p, &steps, choices),
+                None,
+            );
+        }
+        // non-trivial: followed >= 2 referrals, or needed more distinct
+        // upstream questions than were asked
+        let distinct_q: BTreeSet<String> = res
+            .log
+            .iter()
+            .filter_map(|e| e.question.as_ref().map(|q| format!("{} {}", q.name, q.qtype)))
+            .collect();
+        let referrals = res
+            .log
+            .iter()
+            .filter(|e| e.honest_kind == ReplyKind::Referral)
+            .count();
+        if referrals >= 2 || distinct_q.len() > res.asks.len() {
+            acc.count("nontrivial", 1);
+        }
+        let mut fp = String::new();
+        for a in &res.asks {
+            fp.push_str(&format!("{}|{:?}|", show_outcome(&a.outcome), canon_rrs_nottl(&a.cache_after)));
+        }
+        acc.states.insert(fnv64(fp.as_bytes()) ^ fnv64(p.describe().as_bytes()));
+        if res.log.len() >= 3 && res.asks.len() == 2 {
+            acc.sample(json!({
+                "universe": p.describe(),
+                "questions": res.asks.iter().map(|a| format!("{} {}", show_name(&a.question.name), a.question.qtype)).collect::<Vec<_>>(),
+                "answers": res.asks.iter().map(|a| show_outcome(&a.outcome)).collect::<Vec<_>>(),
+                "exchanges": show_log(&res.log),
+                "choices": choices,
+            }));
+        }
+    };
+    explore(&spec, 0, max_exec, &mut stats, &mut visit);
+    acc.count("executions", stats.executions);
+    acc.count("exchanges", stats.exchanges);
+    acc.count("choice_points", stats.choice_points);
+    if stats.capped {
+        acc.capped = true;
+    }
+}
+
+struct Items {
+    built: Vec<(GenParams, Arc<Universe>, Vec<Question>)>,
+    items: Vec<(usize, usize)>,
+}
+
+fn items(tier: Tier) -> Items {
+    let params = universes(tier);
+    let built: Vec<(GenParams, Arc<Universe>, Vec<Question>)> = params
+        .iter()
+        .map(|p| (p.clone(), Arc::new(build(p)), questions(p)))
+        .collect();
+    let mut items = Vec::new();
+    for (ui, (_, _, qs)) in built.iter().enumerate() {
+        for qi in 0..qs.len() {
+            items.push((ui, qi));
+        }
+    }
+    Items { built, items }
+}
+
+fn run_item(tier: Tier, it: &Items, i: usize, acc: &mut JsonAcc) {
+    let (ui, qi) = it.items[i];
+    let (p, u, qs) = &it.built[ui];
+    let max_exec = 4096;
+    let stride = tier.pick(3usize, 1usize);
+    check_history(acc, p, u, vec![Step::Ask(qs[qi].clone())], max_exec);
+    // ordered pairs sharing one cache, clock advanced by 0 or past the short TTL
+    let mut j = (qi * 7) % stride;
+    while j < qs.len() {
+        for adv in [0u64, (SHORT_TTL as u64 + 1) * 1000] {
+            let mut steps = vec![Step::Ask(qs[qi].clone())];
+            if adv > 0 {
+                steps.push(Step::Advance(Duration::from_millis(adv)));
+            }
+            steps.push(Step::Ask(qs[j].clone()));
+            check_history(acc, p, u, steps, max_exec);
+        }
+        j += stride;
+    }
+}
+
+pub fn run(ctx: &Ctx) -> i32 {
+    let it = items(ctx.tier);
+    let (acc, crashes) = procpar::parent(ctx, it.items.len(), ctx.tier.pick(35.0, 560.0), &[]);
+    let mut report = Report::new();
+    report.evaluations = acc.counters.get("executions").copied().unwrap_or(0);
+    report.transitions = acc.counters.get("exchanges").copied().unwrap_or(0)
+        + acc.counters.get("choice_points").copied().unwrap_or(0);
+    report.traces_validated = report.evaluations;
+    report.distinct_nontrivial = acc.counters.get("nontrivial").copied().unwrap_or(0);
+    procpar::into_report(acc, crashes, &mut report);
+    report.rule = "every generated universe (delegation chain from the root hints; per-level nameserver naming style in-zone+glue / in-parent / sibling-zone-without-glue; 1..3 nameservers; with additional data or with in-reply CNAME chasing) x every question of the menu alone and as ordered pairs sharing one cache (clock advanced by 0 or past the short TTL) x every order in which candidate nameservers are tried; one execution = one run of dns_resolver::resolve per question to completion on the paused clock; states = distinct (answers, cache contents) observations; non-trivial = executions that followed >= 2 referrals or needed more distinct upstream questions than were asked (nested nameserver lookup / alias across zones)".into();
+    report.bounds = json!({
+        "universes": it.built.len(),
+        "work_items(universe x first question)": it.items.len(),
+        "max_depth": ctx.tier.pick(3, 5),
+        "second_question_stride": ctx.tier.pick(3, 1),
+        "deviation_bound": 0,
+        "max_executions_per_history": 4096,
+    });
+    report.assumptions = vec![
+        "consistent universes only (faults are C08); one address per family per nameserver host".into(),
+        "TTLs are only required not to exceed the authoritative TTL".into(),
+        "D5: no CNAME/ANY questions at alias names".into(),
+    ];
+    finish(ctx, report)
+}
+
+fn replay_inner(ctx: &Ctx, v: &Value) -> i32 {
+    let p = params_from_json(&v["universe"]);
+    let u = Arc::new(build(&p));
+    let steps: Vec<Step> = v["steps"]
+        .as_array()
+        .cloned()
+        .unwrap_or_default()
+        .iter()
+        .filter_map(step_from_json)
+        .collect();
+    let choices: Vec<usize> = v["choices"]
+        .as_array()
+        .cloned()
+        .unwrap_or_default()
+        .iter()
+        .filter_map(|c| c.as_u64().map(|c| c as usize))
+        .collect();
+    let spec = base_spec(u.clone(), steps.clone());
+    let res = run_once(&spec, &choices);
+    let res2 = run_once(&spec, &choices);
+    println!("universe: {}", u.describe());
+    println!("exchanges: {}", show_log(&res.log));
+    if format!("{:?}", res.asks.iter().map(|a| show_outcome(&a.outcome)).collect::<Vec<_>>())
+        != format!("{:?}", res2.asks.iter().map(|a| show_outcome(&a.outcome)).collect::<Vec<_>>())
+        || res.log.len() != res2.log.len()
+    {
+        eprintln!("machinery error: replay is not deterministic");
+        return 2;
+    }
+    let mut bad = false;
+    for ask in &res.asks {
+        let t = u.truth(&ask.question);
+        println!(
+            "question {} {}\n  implementation: {}\n  truth: {:?}",
+            show_name(&ask.question.name),
+            ask.question.qtype,
+            show_outcome(&ask.outcome),
+            t
+        );
+        if let Some((c, m)) = judge_answer(&t, &ask.outcome) {
+            println!("  finding [{c}]: {m}");
+            bad = true;
+        }
+    }
+    if let Some((c, m)) = judge_log(&u, &res) {
+        println!("  finding [{c}]: {m}");
+        bad = true;
+    }
+    if bad {
+        println!("VIOLATION property={} replay=(replayed case)", ctx.id);
+        1
+    } else {
+        println!("replay: property holds on this case");
+        0
+    }
+}
+
+pub fn replay(ctx: &Ctx, v: &Value) -> i32 {
+    procpar::replay_in_child(ctx, v)
+}
+
+pub fn worker(args: &[String]) -> i32 {
+    if let Some(v) = procpar::replay_arg(args) {
+        let ctx = Ctx {
+            id: "C07",
+            tier: Tier::Quick,
+            seed: 0,
+            start: std::time::Instant::now(),
+            threads: 1,
+        };
+        return replay_inner(&ctx, &v);
+    }
+    let tier = if args.first().map(String::as_str) == Some("thorough") {
+        Tier::Thorough
+    } else {
+        Tier::Quick
+    };
+    let it = items(tier);
+    procpar::child_main(args, move |tier, i, acc| run_item(tier, &it, i, acc))
 }
